@@ -535,13 +535,12 @@ func c04GroupsDocumented(c *Ctx) {
 // compatTableNames finds the wire and wire+JSON compatibility-group tables of the breaking handlers by what they
 // are (package-level map[protoreflect.Kind]… literals) and by who uses them (the handlers registered for
 // FIELD_WIRE_COMPATIBLE_TYPE and FIELD_WIRE_JSON_COMPATIBLE_TYPE), not by their names.
-var compatTableCache = map[*Prog][2]string{}
-
 func compatTableNames(p *Prog) (wire, wireJSON string) {
-	if v, ok := compatTableCache[p]; ok {
-		return v[0], v[1]
+	// memoised on the program itself (a package-level map keyed by *Prog would keep every loaded variant alive)
+	if p.compatTables != nil {
+		return p.compatTables[0], p.compatTables[1]
 	}
-	defer func() { compatTableCache[p] = [2]string{wire, wireJSON} }()
+	defer func() { p.compatTables = &[2]string{wire, wireJSON} }()
 	pkH := p.Pkg(pkgCheckHandle)
 	if pkH == nil {
 		return "", ""
